@@ -682,6 +682,21 @@ def join_ok(P, f):
             if len(ds) == 1 and f.expr_of_def(ds[0]) == e and l in f.names:
                 var = l
     if var is None:
+        # `self.0.iter().cloned().chain(once(segment)).collect()`: every own segment in order, then the argument
+        v = strip(expand(f, e0))
+        if v[0] == 'agg' and v[1].endswith('ItemPath') and v[2]:
+            v = strip(v[2][0][1])
+        while v[0] == 'call' and v[2] and re.search(r'(Iterator::collect|FromIterator<.*>>::from_iter|::from_iter)$', v[1]):
+            v = strip(v[2][0])
+        if is_call(v, 'Iterator::chain') and len(v[2]) == 2:
+            a, b = strip(v[2][0]), strip(v[2][1])
+            while a[0] == 'call' and a[2] and re.search(r'(Iterator::cloned|Iterator::copied|slice::<impl \[T\]>::iter|IntoIterator>::into_iter|Deref>::deref|::as_slice|::clone|::to_vec)$', a[1]):
+                a = strip(a[2][0])
+            own = a == ('field', ('arg', 1, 'self'), '0')
+            tail = (is_call(b, 'iter::once') or is_call(b, 'Option::Some') or (b[0] == 'agg' and b[1].endswith('Option::Some'))) and any(
+                isinstance(y, tuple) and y[:2] == ('arg', 2) for y in walk(b)) and not any(isinstance(y, tuple) and y and y[0] == 'call' and y[1] in P.fns for y in walk(b))
+            if own and tail and not f.loops():
+                return True, 'own segments chained with the argument'
         return False, 'returned value is not a local copy: %s' % show(e0)[:60]
     init = f.expr_of_def(f.defs()[var][0])
     okinit = init[0] == 'call' and init[1].endswith('::clone') and (strip(init[2][0]) in (('field', ('arg', 1, 'self'), '0'), ('arg', 1, 'self')))
